@@ -51,6 +51,7 @@ def main() -> int:
     ap.add_argument("--tests", default=None)
     ap.add_argument("--skip-tests", action="store_true")
     ap.add_argument("--check-properties", default=None, help="comma list; default: the property itself")
+    ap.add_argument("--recheck", action="store_true", help="keep the stored confirmation; only re-run the checks and refresh meta.json")
     args = ap.parse_args()
     src = args.src or f"/tmp/wt/{args.prop}/mutations"
     diff = os.path.join(src, f"{args.mut}.diff")
@@ -60,6 +61,25 @@ def main() -> int:
         if not os.path.exists(f):
             print("missing", f)
             return 2
+    sid0 = f"{args.prop}-{args.mut}"
+    prev = os.path.join(HERE, "seeded", sid0, "meta.json")
+    if args.recheck:
+        if not os.path.exists(prev):
+            print("no previous confirmation for", sid0)
+            return 2
+        meta = json.load(open(prev))
+        if args.check_properties:
+            meta["check_properties"] = args.check_properties.split(",")
+        json.dump(meta, open(prev, "w"), indent=1)
+        sys.path.insert(0, os.path.join(HERE, "tools"))
+        import run_seeded
+        res = run_seeded.run_one(os.path.dirname(prev))
+        meta["checks"] = res.get("results", {})
+        meta["caught_by"] = sorted(p for p, v in meta["checks"].items() if v["exit"] == 1 and v["new"])
+        meta["expected"] = "caught" if meta["caught_by"] else "missed"
+        json.dump(meta, open(prev, "w"), indent=1)
+        print(("CAUGHT " if meta["caught_by"] else "MISSED ") + sid0, meta["caught_by"])
+        return 0
     name = f"confirm-{args.prop}-{args.mut}-{os.getpid()}"
     wt = f"/tmp/wt/{name}"
     r = sh(f"mkdir -p /tmp/wt && sh {HERE}/tools/setup_wt.sh {name}")
@@ -157,6 +177,7 @@ def main() -> int:
     caught = any(v["exit"] == 1 and v["new"] for v in res.get("results", {}).values())
     meta["checks"] = res.get("results", {})
     meta["expected"] = "caught" if caught else "missed"
+    meta["caught_by"] = sorted(p for p, v in res.get("results", {}).items() if v["exit"] == 1 and v["new"])
     json.dump(meta, open(os.path.join(out, "meta.json"), "w"), indent=1)
     print(("CAUGHT " if caught else "MISSED ") + sid, json.dumps(res.get("results", {}))[:600])
     return 0
